@@ -90,6 +90,32 @@ CHECKS["C14"] = dict(
     note=COMMON_NOTE + " Numerical fidelity of the interpolation is not decided.",
 )
 
+CHECKS["C02"] = dict(
+    level="other",
+    technique="static analysis: ast -> sympy term extraction + CAS identities (junction relations => flux conservation; residual forms; "
+              "boundary constants vs definition), phase-side typing of temperatures (dataflow over tuple positions), flag-consultation rule",
+    text="For every equation of state at once (the thermodynamic functions stay uninterpreted symbols): the junction relations coded in "
+         "vpvmAndvpovm imply equality of energy and momentum flux; the residuals of both matching solvers vanish exactly on those "
+         "relations (common positive factor); c1, c2 and vMid equal their definitions in both classes, the template's with its own "
+         "equation of state (itself checked for w = T dp/dT); T+ values only reach high-T-phase functions/bounds and T- values low-T ones "
+         "through all producers and consumers. Two rules fail on today's tree and are recorded as known finding F11: the convergence "
+         "flag of the 2x2 solve is never read by findMatching, and its acceptance test is an absolute threshold on O(v^2) residuals.",
+    note=COMMON_NOTE + " That hybr/brentq reach the root, and which approximation the template fallback returns, are not decided.",
+)
+CHECKS["C03"] = dict(
+    level="other",
+    technique="static analysis: ast -> sympy term extraction + CAS identities against the fluid equations in the similarity variable; "
+              "call-argument provenance for the integrations",
+    text="Independent oracle: dxi/dv and dT/dv returned by shockDE are substituted into the two relativistic fluid equations written in "
+         "the similarity variable xi (energy and momentum equations with p = p(T), de = dp/cs^2) and both residuals are proved zero, "
+         "for either wave and any equation of state; the Lorentz helpers have their defining forms; the front condition is one term at "
+         "three sites and terminal; the front-crossing function is energy-flux continuity with the plasma at rest ahead; integration "
+         "starts at mu(vw, v+) from (vw, T+); the efficiency factor integrates the same ODE from the same data with integrand "
+         "xi^2 v^2 gamma^2 w and prefactor 4/(vw^3 w_n alpha_n), the rarefaction part with the low-T enthalpy and opposite sign; the "
+         "template ODE agrees term-wise.",
+    note=COMMON_NOTE + " Accuracy of solve_ivp / simpson and the momentum-flux condition at the front (a consequence, not coded) are not decided.",
+)
+
 NOT_APPLICABLE = {}
 
 ENGINES = [
